@@ -57,8 +57,8 @@ class C06(G.AutoImpBase):
                     "the list of missing dotted names is an input of the model, taken from the real find_missing_imports (C05)",
                     "ScopeStack normalisation (builtins first, duplicates dropped) is not modelled: the namespaces given are distinct dicts"]
     assumptions = ["namespace dict keys are identifiers (no dotted keys)",
-                   "module bodies do not import other universe modules and raise only Exception subclasses"]
-    families = {"D14": fam_d14, "D14b": fam_d14b}
+                   "module bodies do not import other universe modules and raise Exception subclasses or SystemExit (sys.exit())"]
+    families = {"D14": fam_d14, "D14b": fam_d14b, "N1": G.fam_n1, "N2": G.fam_n2, "N3": G.fam_n3}
 
     def oracle(self, case, obs):
         return G.oracle_c06(case, obs)
